@@ -92,6 +92,19 @@ static size_t first_read_count(int fd, size_t count) {
   return (size_t)first_read_n < count ? (size_t)first_read_n : count;
 }
 
+/* ---- short mode: IO_SHIM_SHORT=<k>:<n> -- the k-th write()/pwrite() on the TRACKED file transfers only n bytes (n >= 1; "h" = half
+   of the request, "m" = all but one byte) and returns that count: a partial transfer, as a filling disk produces; every later call
+   is served normally ---- */
+static long short_k, short_ctr;
+static char short_n[16];
+static size_t short_count(size_t count) {
+  if (!short_k || count < 2) return count;
+  if (__sync_add_and_fetch(&short_ctr, 1) != short_k) return count;
+  size_t n = short_n[0] == 'h' ? count / 2 : short_n[0] == 'm' ? count - 1 : (size_t)atol(short_n);
+  if (n < 1) n = 1;
+  return n < count ? n : count;
+}
+
 /* ---- fail mode ---- */
 static char fail_call[16];
 static long fail_k, fail_ctr;
@@ -164,6 +177,12 @@ static void init(void) {
     const char *c = strchr(s, ':');
     storm_permille = c ? (unsigned)atoi(c + 1) : 200;
     storm_on = 1;
+  }
+  s = getenv("IO_SHIM_SHORT");
+  if (s) {
+    short_k = atol(s);
+    const char *c = strchr(s, ':');
+    snprintf(short_n, sizeof short_n, "%s", c ? c + 1 : "h");
   }
   s = getenv("IO_SHIM_FIRST_READ");
   if (s) first_read_n = atol(s);
@@ -387,7 +406,14 @@ ssize_t write(int fd, const void *buf, size_t count) {
     return tally(real_write(fd, buf, n));
   }
   if (fail_now("write", fd)) return -1;
-  if (tracked(fd)) logcall("write off=%lld len=%zu", (long long)real_lseek(fd, 0, SEEK_CUR), count);
+  if (tracked(fd)) {
+    size_t sc = short_count(count);
+    if (sc != count) {
+      logcall("write off=%lld len=%zu short=1", (long long)real_lseek(fd, 0, SEEK_CUR), sc);
+      return real_write(fd, buf, sc);
+    }
+    logcall("write off=%lld len=%zu", (long long)real_lseek(fd, 0, SEEK_CUR), count);
+  }
   size_t c = storm_count(fd, count);
   if (count && !c) { errno = EINTR; return -1; }
   return real_write(fd, buf, c);
@@ -416,7 +442,14 @@ static ssize_t do_pwrite(int fd, const void *buf, size_t count, off_t off) {
     return tally(real_pwrite(fd, buf, n, off));
   }
   if (fail_now("pwrite", fd)) return -1;
-  if (tracked(fd)) logcall("write off=%lld len=%zu", (long long)off, count);
+  if (tracked(fd)) {
+    size_t sc = short_count(count);
+    if (sc != count) {
+      logcall("write off=%lld len=%zu short=1", (long long)off, sc);
+      return real_pwrite(fd, buf, sc, off);
+    }
+    logcall("write off=%lld len=%zu", (long long)off, count);
+  }
   size_t c = storm_count(fd, count);
   if (count && !c) { errno = EINTR; return -1; }
   return real_pwrite(fd, buf, c, off);
